@@ -114,6 +114,7 @@ def main(argv=None):
     notes = {}
     problems = []   # reasons for an inconclusive verdict
     crash_fails = []
+    shard_notes = {}
     for i, p, outdir, _ in procs:
         st = shard_status[i]
         spath = os.path.join(outdir, "summary.json")
@@ -137,6 +138,7 @@ def main(argv=None):
             fail_counts.update(summary["fail_counts"])
             for k, v in summary.get("notes", {}).items():
                 notes.setdefault(k, v)
+            shard_notes[i] = summary.get("notes", {})
             for r in summary.get("inconclusive", []):
                 problems.append(f"shard {i}: {r}")
         fpath = os.path.join(outdir, "fails.jsonl")
@@ -168,6 +170,14 @@ def main(argv=None):
     for cf in crash_fails:
         fails.append(cf)
         fail_counts[cf["key"]] += 1
+    if hasattr(mod, "cross_shard") and not args.replay:
+        # relations between what different worker processes observed (e.g. same scenario under other hash seeds)
+        for rec in mod.cross_shard(shard_notes, [sh.get("env", {}) for sh in shards], monitors, observed):
+            rec.setdefault("shard", -1)
+            rec.setdefault("seed", seed)
+            rec.setdefault("tier", tier)
+            fails.append(rec)
+            fail_counts[rec["key"]] += 1
 
     # ---------------- classify
     known = load_known(prop)
